@@ -63,7 +63,14 @@ type Printer struct {
 	armFloor int
 }
 
+// ArmMark stands at the start of every continuation line of a match written in argument position.
+const ArmMark = "\x01"
+
 func (p *Printer) line(indent int, s string) {
+	if strings.Contains(s, ArmMark) {
+		// the arms of a match in argument position: anywhere right of the line's own indentation
+		s = strings.ReplaceAll(s, ArmMark, strings.Repeat(" ", indent+p.L.Indent()))
+	}
 	p.lines = append(p.lines, strings.Repeat(" ", indent)+s+strings.Repeat(" ", p.L.TrailingSpaces()))
 }
 
@@ -128,6 +135,26 @@ func CanInline(e *Expr) bool {
 		}
 	}
 	return true
+}
+
+// holdsMatchArg: a call or pipeline that is inline apart from a match written in argument position
+// (whose arms go on continuation lines).
+func holdsMatchArg(e *Expr) bool {
+	if e.K != "call" && e.K != "pipe" {
+		return false
+	}
+	found := false
+	for _, a := range e.Args {
+		switch {
+		case (a.K == "matchu" || a.K == "matchs") && a.Extra == 0:
+			found = true
+		case a.K == "call" && holdsMatchArg(a):
+			found = true
+		case !CanInline(a):
+			return false
+		}
+	}
+	return found
 }
 
 // isAtom: can appear as a function argument without parentheses.
@@ -323,6 +350,29 @@ func inline0(e *Expr, ctx int) string {
 		return Inline(e.Args[0], 1000) + "." + e.Name
 	case "fieldfn":
 		return "_." + e.Name
+	case "matchu", "matchs":
+		// a match in argument position: parenthesised, `match … with` on the current line, one arm per
+		// continuation line (ArmMark is replaced by the indentation of the line the text ends up in plus a
+		// layout-chosen offset); only generated with single-expression arms and never nested in another one
+		var sb strings.Builder
+		sb.WriteString("(match " + Inline(e.Args[0], 0) + " with")
+		arm := func(head string, b *Block) { sb.WriteString("\n" + ArmMark + head + " -> " + Inline(b.Final, 0)) }
+		for _, a := range e.Arms {
+			head := "| " + a.Case
+			if e.K == "matchs" {
+				head = "| " + quotePlain(a.Lit)
+			} else if a.Bind != "" {
+				head += " " + a.Bind
+			}
+			arm(head, a.Body)
+		}
+		if e.VarArm != nil {
+			arm("| "+e.VarArm.Bind, e.VarArm.Body)
+		}
+		if e.Default != nil {
+			arm("| _", e.Default)
+		}
+		return sb.String() + ")"
 	case "lambda":
 		return wrap("fun "+paramsSrc(e.Params)+" -> "+Inline(e.Body.Final, 0), ctx != 0)
 	case "if":
@@ -366,6 +416,12 @@ func (p *Printer) letLike(head string, e *Expr, indent int) {
 		//   body
 		p.head(indent, head+" fun "+paramsSrc(e.Params)+" ->")
 		p.block(e.Body, indent+p.L.Indent())
+		return
+	}
+	if holdsMatchArg(e) && !p.L.RhsNextLine() {
+		// let r = x |> f a (match m with
+		//   | … -> …)
+		p.line(indent, head+" "+Inline(e, 0))
 		return
 	}
 	if multi || p.L.RhsNextLine() {
